@@ -50,6 +50,7 @@ type verifC08 struct {
 	sentR1  []int
 	sentR22 []int
 	sentR21 [][]int
+	started []bool // Start() has returned for party i
 }
 
 func (c *verifC08) lp(i int) *LocalParty { return c.parties[i].(*LocalParty) }
@@ -115,6 +116,14 @@ func (c *verifC08) after(d net.Delivery, ok bool, err *tss.Error) {
 		got[p.Index] = true
 	}
 	want := c.want(i)
+	if !c.started[i] {
+		// before Start the party has no current round: nothing is awaited yet (messages that
+		// arrive early are stored and evaluated once the round exists)
+		for j := 0; j < c.n; j++ {
+			v.Observe("waitingfor-empty-before-start", !got[j])
+		}
+		return
+	}
 	finished := true
 	for j := 0; j < c.n; j++ {
 		if want[j] {
@@ -134,7 +143,7 @@ func (c *verifC08) after(d net.Delivery, ok bool, err *tss.Error) {
 
 func verifNewC08(parties []tss.Party) *verifC08 {
 	n := len(parties)
-	c := &verifC08{parties: parties, n: n, sentR1: make([]int, n), sentR22: make([]int, n), sentR21: make([][]int, n)}
+	c := &verifC08{parties: parties, n: n, sentR1: make([]int, n), sentR22: make([]int, n), sentR21: make([][]int, n), started: make([]bool, n)}
 	for i := range c.sentR21 {
 		c.sentR21[i] = make([]int, n)
 	}
@@ -161,13 +170,16 @@ func verifC07Run(n, t, mode int, dup, preStart bool, starve int) {
 	if preStart {
 		// party 0 starts alone; its first message reaches the others before their Start
 		v.Assert("start-succeeds", parties[0].Start() == nil)
+		c8.started[0] = true
 		s.Run()
 		for i := 1; i < n; i++ {
 			v.Assert("start-succeeds", parties[i].Start() == nil)
+			c8.started[i] = true
 		}
 	} else {
 		for i := range parties {
 			v.Assert("start-succeeds", parties[i].Start() == nil)
+			c8.started[i] = true
 		}
 	}
 	s.Run()
